@@ -192,3 +192,15 @@ claim('C20', 'model_checking',
       'oracle here).',
       'decision-tree model checking of the real builder (adversarial set order, fault injection, cooperative 2-thread '
       'schedules)', 'DESIGN.md 3/C20')
+
+claim('C13', 'translation_validation',
+      '30 expression templates over Pseq, Pser, Pn, Plen, Pdrop, Pstutter, Pclump, Pflatten, Pdiff, Pconst, Pswitch, '
+      'Pswitch1, Place, Ptuple, Pslide, Pseries, Pgeom, Pcollect/Pselect/Preject, Pif, Pwrap and unary/binary/n-ary '
+      'operator patterns (also nested inside other patterns), with sub-patterns embedded in place, SYMBOLIC real '
+      'elements and symbolic bounded repeats/offsets/lengths/counts (finite and infinite repeats): the real stream is '
+      'compared with an independent denotational interpreter -- same length and z3-equal elements on every path -- for '
+      'two streams of the same pattern object, one consumed around the other, and the pattern must stay unchanged; '
+      'seeded random patterns: same seed, same sequence, no interference.',
+      _TB + '; the reference interpreter den() in vf/props/c13.py is written from the class documentation.',
+      'symbolic execution of the real pattern streams + SMT equality against a denotational reference',
+      'DESIGN.md 3/C13')
